@@ -41,8 +41,8 @@ ASSUMPTIONS = [
 ]
 BOUNDS = {
     "quick": {"alias": "put_template of a file-backed Template under another URI: all histories of <= 4 events over {tick, write, get alias, get own uri, has alias} x filesystem_checks x collection_size {-1,4} x module directory x {Template(filename=), lookup.get_template}",
-              "max_depth": "S: 11 (1 dir) / 7 (2 dirs); L: 9 (2 uris) / 7 (3 uris)", "versions": "A,B,broken", "time_budget_s": 90,
-              "fractional_times": "2 configurations (module directory on/off) whose clock reads x.25 and whose files may also be saved at x.75 (event write_frac), depth 7"},
+              "max_depth": "S: 11 (1 dir) / 7 (2 dirs); L: 9 (2 uris) / 7 (3 uris, and 2 uris with a module directory)", "versions": "A,B,broken", "time_budget_s": 90,
+              "fractional_times": "2 configurations (module directory on/off) whose clock reads x.25 and whose files may also be saved at x.75 (event write_frac), depth 6"},
     "thorough": {"alias": "as quick with histories of <= 5 events", "max_depth": "S: 40 (fixpoint sought)/9/6 for 1/2/3 dirs; L: 12/8/6/5/4 for 2/3/4/5/7 uris; groups explored one after the other", "versions": "A,B,broken,unreadable", "time_budget_s": 780, "fractional_times": "4 configurations (collection_size -1/1 x module directory), depth 12"},
 }
 READY = True
@@ -91,9 +91,11 @@ def configs(tier):
         out.append({"mode": "S", "dirs": 1, "uris": 1, "fs_checks": True, "size": cs, "moddir": md, "unreadable": False, "max_depth": 7 if tier == "quick" else 12, "spell": spell})
     # file times with a fractional part: the clock reads x.25, a file may be saved at x.75
     for cs, md in ([(-1, True), (-1, False)] if tier == "quick" else [(cs, md) for cs in (-1, 1) for md in (False, True)]):
-        out.append({"mode": "S", "dirs": 1, "uris": 1, "fs_checks": True, "size": cs, "moddir": md, "unreadable": False, "max_depth": 7 if tier == "quick" else 12, "frac": True})
+        out.append({"mode": "S", "dirs": 1, "uris": 1, "fs_checks": True, "size": cs, "moddir": md, "unreadable": False, "max_depth": 6 if tier == "quick" else 12, "frac": True})
     for nu, fs, cs, md in L:
         dep = ({2: 9, 3: 7} if tier == "quick" else {2: 12, 3: 8, 4: 6, 5: 5, 7: 4})[nu]
+        if tier == "quick" and md:
+            dep = 7
         out.append({"mode": "L", "dirs": 1, "uris": nu, "fs_checks": fs, "size": cs, "moddir": md, "unreadable": False, "max_depth": dep})
     return out
 
